@@ -27,13 +27,13 @@ func MarshalJSON[T any](t TestingT, cases []CaseJSON[T]) {
 	t.Helper()
 
 	for i, c := range cases {
+		if !isForMarshal(c.Constraint) {
+			continue
+		}
+
 		if _, ok := any(c.Value).(json.Marshaler); !ok {
 			assert.FailNowf(t, "unable to test MarshalJSON", "type %T must implements json.Marshaler", c.Value)
 			return
-		}
-
-		if !isForMarshal(c.Constraint) {
-			continue
 		}
 
 		failInfo := fmt.Sprintf("case %d failed", i)
@@ -62,13 +62,13 @@ func UnmarshalJSON[T any](t TestingT, cases []CaseJSON[T], helper TypeHelper[T])
 
 	var f func(*T) json.Unmarshaler
 	for i, c := range cases {
+		if !isForUnmarshal(c.Constraint) {
+			continue
+		}
+
 		if f = castToFunc[T, json.Unmarshaler](c.Value); f == nil {
 			assert.FailNowf(t, "unable to test UnmarshalJSON", "type %T must implements json.Unmarshaler", c.Value)
 			return
-		}
-
-		if !isForUnmarshal(c.Constraint) {
-			continue
 		}
 
 		failInfo := fmt.Sprintf("case %d failed", i)
